@@ -9,22 +9,16 @@ pub mod h4 {
    ascent! {
       pub struct Prog;
       relation r0(i64, i64, i64);
-      relation r1(i64, i64);
+      relation r1(i64, i64, i64);
       relation r2(i64, i64);
-      relation r3(i64, i64);
+      relation r3(i64);
       relation r4(i64, i64);
-      relation r5(i64, i64, i64);
-      r1(v1, v2) <-- if let Some(v0) = Some(3), r0(v0, v1, v2), r3(v3, v1);
-      r2(3, v0) <-- r1(v0, v1) if ((*v0) <= 3);
-      r3(v0, 3) <-- r2(v0, 1), r2(v0, v0);
-      r4(3, v0) <-- for v0 in 0..4, r3(v1, 1), r5(v0, v1, v1);
-      r5(v3, v3, (v4 + 1)) <-- r4(v0, v1), r4(v2, v3) if ((*v0) <= 3) let v4 = ((*v1) + 0), let v5 = std::cmp::max((*v2), 3), if (v4 < 6);
-      r4(v0, v1) <-- r2(v0, v1) if ((*v0) < 2), r1(v1, v2) if ((*v2) != (*v1));
-      r2(v0, v1) <-- r3(v0, v1), r1(v0, v0), r3(v1, v2);
-      r4(v0, v0) <-- if let Some(v0) = Some(1);
-      r2(v0, v0) <-- let v0 = 4;
-      r1(v0, v0) <-- if let Some(v0) = Some(4), r5(v0, 1, v1), if ((*v1) < 1), r4(0, 3);
-      r1((v4 + 1), v3) <-- if let Some(v0) = Some(1), r1(v1, v2), r5(v2, 2, v1) if ((*v1) <= 4), r5(3, v3, v1) if ((*v1) < 3) let v4 = ((*v3) + 0), if (v4 < 6);
+      r1(v1, v0, 0) <-- r0(v0, v1, v2);
+      r2(v1, v2) <-- r1(v0, v1, 0), r1(((*v0) + 1), v1, v2) if ((*v1) < 4);
+      r3((v1 + 1)) <-- for v0 in [1, 0, 4], r2(v0, 2) if (v0 <= 4), let v1 = (v0 + 2), if (v1 < 6);
+      r4(0, 3) <-- r3(0);
+      r2(v0, v1) <-- r2(v0, v1) if ((*v0) < 2), r4(v1, v2) if ((*v2) != (*v1));
+      r1(2, v2, 0) <-- r0(v0, v1, v2);
    }
    pub struct Inst { p: Prog, pool: Option<ascent::rayon::ThreadPool> }
    pub fn make(pool: Option<usize>) -> Box<dyn Driver> {
@@ -36,11 +30,10 @@ pub mod h4 {
       fn load(&mut self, rel: usize, rows: &[Sexp], append: bool) -> Option<()> {
          match rel {
          0 => { let v: Vec<(i64,i64,i64,)> = parse_rows(rows)?; if append { self.p.r0.extend(v) } else { self.p.r0 = v } },
-         1 => { let v: Vec<(i64,i64,)> = parse_rows(rows)?; if append { self.p.r1.extend(v) } else { self.p.r1 = v } },
+         1 => { let v: Vec<(i64,i64,i64,)> = parse_rows(rows)?; if append { self.p.r1.extend(v) } else { self.p.r1 = v } },
          2 => { let v: Vec<(i64,i64,)> = parse_rows(rows)?; if append { self.p.r2.extend(v) } else { self.p.r2 = v } },
-         3 => { let v: Vec<(i64,i64,)> = parse_rows(rows)?; if append { self.p.r3.extend(v) } else { self.p.r3 = v } },
+         3 => { let v: Vec<(i64,)> = parse_rows(rows)?; if append { self.p.r3.extend(v) } else { self.p.r3 = v } },
          4 => { let v: Vec<(i64,i64,)> = parse_rows(rows)?; if append { self.p.r4.extend(v) } else { self.p.r4 = v } },
-         5 => { let v: Vec<(i64,i64,i64,)> = parse_rows(rows)?; if append { self.p.r5.extend(v) } else { self.p.r5 = v } },
             _ => return None,
          }
          Some(())
@@ -48,7 +41,7 @@ pub mod h4 {
       fn run(&mut self) { match &self.pool { Some(pl) => { let p = &mut self.p; pl.install(|| p.run()) }, None => self.p.run() } }
       fn run_here(&mut self) { self.p.run() }
       fn run_timeout(&mut self, k: usize) -> Option<bool> { let _ = k; None }
-      fn dump(&self) -> String { vec![dump_rel(0, self.p.r0.iter().map(Row::render).collect()), dump_rel(1, self.p.r1.iter().map(Row::render).collect()), dump_rel(2, self.p.r2.iter().map(Row::render).collect()), dump_rel(3, self.p.r3.iter().map(Row::render).collect()), dump_rel(4, self.p.r4.iter().map(Row::render).collect()), dump_rel(5, self.p.r5.iter().map(Row::render).collect())].join(" | ") }
+      fn dump(&self) -> String { vec![dump_rel(0, self.p.r0.iter().map(Row::render).collect()), dump_rel(1, self.p.r1.iter().map(Row::render).collect()), dump_rel(2, self.p.r2.iter().map(Row::render).collect()), dump_rel(3, self.p.r3.iter().map(Row::render).collect()), dump_rel(4, self.p.r4.iter().map(Row::render).collect())].join(" | ") }
       fn iters(&self) -> String { format!("iters {}", self.p.scc_iters.iter().map(|x| x.to_string()).collect::<Vec<_>>().join(" ")) }
    }
 }
@@ -62,16 +55,19 @@ pub mod h12 {
    ascent! {
       pub struct Prog;
       relation r0(i64, i64);
-      relation r1(i64, i64);
+      relation r1(i64);
       relation r2(i64, i64);
       relation r3(i64, i64);
-      relation r4(i64);
-      r4(v0) <-- r0(v0, v1), r3(v1, v2), r3(v2, v3);
-      r4(v0) <-- r3(v0, v1), r0(v0, v0), r3(v1, v2);
-      r3(0, v0) <-- r3(0, 2), r4(v0), r3(v1, ((*v0) + 1));
-      r4(((*v0) + 1)) <-- r2(3, v0) if ((*v0) <= 1), if ((*v0) < 6);
-      r4(v1) <-- r2(v0, v1), for v2 in 0..3, r1(v1, v2);
-      r2(1, 0) <-- r4(0);
+      relation r4(i64, i64);
+      relation r5(i64, i64);
+      r1(v2) <-- if let Some(v0) = Some(3), r0(v0, v1), let v2 = ((*v1) + 1), if (v2 <= 6);
+      r2(v0, v0) <-- if let Some(v0) = None::<i64>, r1(v0), r0((v0 + 1), v0), if (v0 <= 6);
+      r3(v0, v0) <-- r2(2, v0), r1(v0);
+      r4(((*v0) + 1), v0) <-- r3(2, v0), r2(v0, v0), if ((*v0) < 6);
+      r5(v2, ((*v1) + 1)) <-- r4(v0, v1), r2(((*v0) + 0), v2), if ((*v1) < 6);
+      r5(v0, v1) <-- for v9 in 0..2, r3(v0, v1), r0(v9, v1);
+      r4(v0, v8) <-- if let Some(v9) = Some(3), r4(v0, v1), r5(v1, v9) let v8 = ((*v0) + 1);
+      r4(((*v0) + 1), v2) <-- r4(v0, v1), r5(0, v2), r0(v0, v3), if ((*v0) < 6);
    }
    pub struct Inst { p: Prog, pool: Option<ascent::rayon::ThreadPool> }
    pub fn make(pool: Option<usize>) -> Box<dyn Driver> {
@@ -83,10 +79,11 @@ pub mod h12 {
       fn load(&mut self, rel: usize, rows: &[Sexp], append: bool) -> Option<()> {
          match rel {
          0 => { let v: Vec<(i64,i64,)> = parse_rows(rows)?; if append { self.p.r0.extend(v) } else { self.p.r0 = v } },
-         1 => { let v: Vec<(i64,i64,)> = parse_rows(rows)?; if append { self.p.r1.extend(v) } else { self.p.r1 = v } },
+         1 => { let v: Vec<(i64,)> = parse_rows(rows)?; if append { self.p.r1.extend(v) } else { self.p.r1 = v } },
          2 => { let v: Vec<(i64,i64,)> = parse_rows(rows)?; if append { self.p.r2.extend(v) } else { self.p.r2 = v } },
          3 => { let v: Vec<(i64,i64,)> = parse_rows(rows)?; if append { self.p.r3.extend(v) } else { self.p.r3 = v } },
-         4 => { let v: Vec<(i64,)> = parse_rows(rows)?; if append { self.p.r4.extend(v) } else { self.p.r4 = v } },
+         4 => { let v: Vec<(i64,i64,)> = parse_rows(rows)?; if append { self.p.r4.extend(v) } else { self.p.r4 = v } },
+         5 => { let v: Vec<(i64,i64,)> = parse_rows(rows)?; if append { self.p.r5.extend(v) } else { self.p.r5 = v } },
             _ => return None,
          }
          Some(())
@@ -94,7 +91,7 @@ pub mod h12 {
       fn run(&mut self) { match &self.pool { Some(pl) => { let p = &mut self.p; pl.install(|| p.run()) }, None => self.p.run() } }
       fn run_here(&mut self) { self.p.run() }
       fn run_timeout(&mut self, k: usize) -> Option<bool> { let _ = k; None }
-      fn dump(&self) -> String { vec![dump_rel(0, self.p.r0.iter().map(Row::render).collect()), dump_rel(1, self.p.r1.iter().map(Row::render).collect()), dump_rel(2, self.p.r2.iter().map(Row::render).collect()), dump_rel(3, self.p.r3.iter().map(Row::render).collect()), dump_rel(4, self.p.r4.iter().map(Row::render).collect())].join(" | ") }
+      fn dump(&self) -> String { vec![dump_rel(0, self.p.r0.iter().map(Row::render).collect()), dump_rel(1, self.p.r1.iter().map(Row::render).collect()), dump_rel(2, self.p.r2.iter().map(Row::render).collect()), dump_rel(3, self.p.r3.iter().map(Row::render).collect()), dump_rel(4, self.p.r4.iter().map(Row::render).collect()), dump_rel(5, self.p.r5.iter().map(Row::render).collect())].join(" | ") }
       fn iters(&self) -> String { format!("iters {}", self.p.scc_iters.iter().map(|x| x.to_string()).collect::<Vec<_>>().join(" ")) }
    }
 }
@@ -108,15 +105,13 @@ pub mod hl2 {
    ascent! {
       pub struct Prog;
       relation r0(i64, i64, i64);
-      relation r1(i64, i64, i64);
-      relation r2(i64);
-      lattice r3(i64, i64, Option<i64>);
-      lattice r4(i64, i64, i64);
-      r3(v2, 1, Some((*v0))) <-- r0(v0, v1, v2);
-      r3(v1, v1, None) <-- r3(v0, v1, v2) if ((*v0) < 6), r1(v0, v0, v3);
-      r4(v0, v1, (*v2)) <-- r0(v0, v1, v2);
-      r3(v1, v0, Some(0)) <-- r4(v0, v1, v2);
-      r1(v0, v3, v0) <-- r1(v0, v0, v1), r1(v0, v2, v3);
+      relation r1(i64, i64);
+      lattice r2(i64, Set<i64>);
+      r2(v0, Set::singleton((*v1))) <-- r1(v0, v1);
+      r2(v1, v2) <-- r2(v0, v2), r1(v0, v1);
+      r2(v1, Set::singleton((*v1))) <-- r0(v0, v1, v2);
+      r2(v0, v1) <-- r2(v0, v1), r1(v0, v0);
+      r2(v1, Set::singleton((*v1))) <-- r0(v0, v1, 1) if ((*v1) < 6);
    }
    pub struct Inst { p: Prog, pool: Option<ascent::rayon::ThreadPool> }
    pub fn make(pool: Option<usize>) -> Box<dyn Driver> {
@@ -128,10 +123,8 @@ pub mod hl2 {
       fn load(&mut self, rel: usize, rows: &[Sexp], append: bool) -> Option<()> {
          match rel {
          0 => { let v: Vec<(i64,i64,i64,)> = parse_rows(rows)?; if append { self.p.r0.extend(v) } else { self.p.r0 = v } },
-         1 => { let v: Vec<(i64,i64,i64,)> = parse_rows(rows)?; if append { self.p.r1.extend(v) } else { self.p.r1 = v } },
-         2 => { let v: Vec<(i64,)> = parse_rows(rows)?; if append { self.p.r2.extend(v) } else { self.p.r2 = v } },
-         3 => { let v: Vec<(i64,i64,Option<i64>,)> = parse_rows(rows)?; if append { self.p.r3.extend(v) } else { self.p.r3 = v } },
-         4 => { let v: Vec<(i64,i64,i64,)> = parse_rows(rows)?; if append { self.p.r4.extend(v) } else { self.p.r4 = v } },
+         1 => { let v: Vec<(i64,i64,)> = parse_rows(rows)?; if append { self.p.r1.extend(v) } else { self.p.r1 = v } },
+         2 => { let v: Vec<(i64,Set<i64>,)> = parse_rows(rows)?; if append { self.p.r2.extend(v) } else { self.p.r2 = v } },
             _ => return None,
          }
          Some(())
@@ -139,7 +132,7 @@ pub mod hl2 {
       fn run(&mut self) { match &self.pool { Some(pl) => { let p = &mut self.p; pl.install(|| p.run()) }, None => self.p.run() } }
       fn run_here(&mut self) { self.p.run() }
       fn run_timeout(&mut self, k: usize) -> Option<bool> { let _ = k; None }
-      fn dump(&self) -> String { vec![dump_rel(0, self.p.r0.iter().map(Row::render).collect()), dump_rel(1, self.p.r1.iter().map(Row::render).collect()), dump_rel(2, self.p.r2.iter().map(Row::render).collect()), dump_rel(3, self.p.r3.iter().map(Row::render).collect()), dump_rel(4, self.p.r4.iter().map(Row::render).collect())].join(" | ") }
+      fn dump(&self) -> String { vec![dump_rel(0, self.p.r0.iter().map(Row::render).collect()), dump_rel(1, self.p.r1.iter().map(Row::render).collect()), dump_rel(2, self.p.r2.iter().map(Row::render).collect())].join(" | ") }
       fn iters(&self) -> String { format!("iters {}", self.p.scc_iters.iter().map(|x| x.to_string()).collect::<Vec<_>>().join(" ")) }
    }
 }
